@@ -56,3 +56,6 @@ Definition bspec_ok (c : bcase) (obs : list qset) : bool :=
   | Some obs' => spec_ok {| c_init := b_init c; c_ops := flat (b_ops c) |} obs'
   | None => false
   end.
+
+(* scope statistic of the flattened history (see Model.v scope_kf) *)
+Definition bscope_kf (c : bcase) : N := scope_kf {| c_init := b_init c; c_ops := flat (b_ops c) |}.
